@@ -447,3 +447,11 @@ M("C15", "spa-name-accessor-asserts-truthiness", "driver/protocol/hello.py", "  
 M("C16", "socket-error-rewinds-the-counters", "driver/async_udp_protocol.py", "    def error_received(self, exc) -> None:", "    def error_received(self, exc) -> None:\n        self._sequence_counter_protocol = 0\n        self._sequence_counter_command = 191", rule="R3")
 M("C19", "statv-header-found-by-lstrip", "driver/protocol/statusblock.py", "        remainder = received_bytes[5:]\n        if received_bytes.startswith(STATU_VERB):", "        remainder = received_bytes.lstrip(STATU_VERB if received_bytes.startswith(STATU_VERB) else STATV_VERB)\n        if received_bytes.startswith(STATU_VERB):", rule="R3")
 M("C20", "version-answer-flagged-before-decode", "driver/protocol/version.py", "        # Otherwise must be SVERS\n        (", "        # Otherwise must be SVERS\n        self._should_remove_handler = True\n        (", rule="R5")
+
+# --------------------------------------------------------------------------- round 13 rules
+M("C02", "time-minutes-clamped-to-sixty", "driver/accessor.py", "    def _set_value(self, newvalue):\n        \"\"\"Set a value in the pack structure using the initialized declaration\"\"\"\n        if self.read_write is None:\n            raise Exception(\n                GeckoConstants.EXCEPTION_MESSAGE_NOT_WRITABLE.format(self.tag)\n            )\n\n        if self.type == GeckoConstants.SPA_PACK_STRUCT_ENUM_TYPE:\n            newvalue = self.items.index(newvalue)\n        elif self.type == GeckoConstants.SPA_PACK_STRUCT_TIME_TYPE:\n            bits = newvalue.split(\":\")\n            newvalue = (int(bits[0]) * 256) + (int(bits[1]) % 256)", "    def _set_value(self, newvalue):\n        \"\"\"Set a value in the pack structure using the initialized declaration\"\"\"\n        if self.read_write is None:\n            raise Exception(\n                GeckoConstants.EXCEPTION_MESSAGE_NOT_WRITABLE.format(self.tag)\n            )\n\n        if self.type == GeckoConstants.SPA_PACK_STRUCT_ENUM_TYPE:\n            newvalue = self.items.index(newvalue)\n        elif self.type == GeckoConstants.SPA_PACK_STRUCT_TIME_TYPE:\n            bits = newvalue.split(\":\")\n            newvalue = (int(bits[0]) * 256) + (int(bits[1]) % 60)", rule="R14")
+M("C03", "observers-kept-by-weak-reference", "driver/observable.py", "        self._observers.append(observer)", "        import weakref\n        self._observers.append(weakref.ref(observer))", rule="R5")
+M("C04", "statv-payload-counted-from-the-end", "driver/protocol/statusblock.py", "        self.data = remainder[3 : self.length + 3]", "        self.data = remainder[-self.length :]", rule="R2")
+M("C13", "watercare-names-swapped", "const.py", "        \"Energy Saving\",\n        \"Super Energy Saving\",", "        \"Super Energy Saving\",\n        \"Energy Saving\",", rule="R6")
+M("C17", "config-members-a-generator", "config.py", "CONFIG_MEMBERS = [\n    attr\n    for attr in dir(_GeckoConfig)\n    if not callable(getattr(_GeckoConfig, attr)) and not attr.startswith(\"__\")\n]", "CONFIG_MEMBERS = (\n    attr\n    for attr in dir(_GeckoConfig)\n    if not callable(getattr(_GeckoConfig, attr)) and not attr.startswith(\"__\")\n)", rule="R1")
+M("C17", "config-members-a-tuple-twin", "config.py", "CONFIG_MEMBERS = [\n    attr\n    for attr in dir(_GeckoConfig)\n    if not callable(getattr(_GeckoConfig, attr)) and not attr.startswith(\"__\")\n]", "CONFIG_MEMBERS = tuple(\n    attr\n    for attr in dir(_GeckoConfig)\n    if not callable(getattr(_GeckoConfig, attr)) and not attr.startswith(\"__\")\n)", expect="silent")
